@@ -19,6 +19,13 @@ import (
 func init() {
 	cfg := simkit.Config{MinDelayMs: 1, MaxDelayMs: 700}
 	Register(&Scenario{Prop: "C19", Name: "wal-tokens", Strict: true, Quick: 10, Thorough: 10, Cfg: cfg, Run: runC19})
+	// one or two transient store errors (before the call lands, or after it landed) on the appenders' calls: an Add may
+	// fail, but an Add that reports success has stored its payload unchanged under a unique, correctly ordered token
+	Register(&Scenario{Prop: "C19", Name: "wal-tokens-store-errors", Strict: true, Quick: 3, Thorough: 4, Cfg: cfg, Run: func(rc *RunCtx) *simkit.Violation {
+		c19Faulty = true
+		defer func() { c19Faulty = false }()
+		return runC19(rc)
+	}})
 	Register(&Scenario{Prop: "C19", Name: "known-list-entries-after-add", Strict: true, Quick: 1, Thorough: 1, Cfg: cfg, Run: runC19Entries})
 }
 
@@ -43,6 +50,8 @@ type walAdd struct {
 	ret     time.Time
 	err     error
 }
+
+var c19Faulty bool
 
 func runC19(rc *RunCtx) *simkit.Violation {
 	const prop = "C19"
@@ -77,7 +86,7 @@ func runC19(rc *RunCtx) *simkit.Violation {
 				a.token, a.err = l.Add(bg, p)
 				a.ret = time.Now()
 				results[c] = append(results[c], a)
-				if a.err != nil {
+				if a.err != nil && !c19Faulty {
 					return nil, a.err
 				}
 				if i+1 < len(payloads) && pause > 0 {
@@ -86,6 +95,11 @@ func runC19(rc *RunCtx) *simkit.Violation {
 			}
 			return nil, nil
 		}))
+	}
+	if c19Faulty {
+		w.Faults = &simkit.FaultCfg{Err: 60, AckLost: 40, Budget: t.Range(1, 2), Eligible: func(c *simkit.Call) bool {
+			return strings.HasPrefix(c.Client.Name, "appender")
+		}}
 	}
 	// a reader listing while the appends are in flight, through ONE log value, often repeating the same (from, max):
 	// each listing is a single store call, so its result must be the log as it was at some instant between the
@@ -188,7 +202,20 @@ func runC19(rc *RunCtx) *simkit.Violation {
 		if tk.Err != nil {
 			return Viol(prop, "add-failed", "Add", "", "a fault-free append failed: %v", tk.Err)
 		}
-		all = append(all, results[c]...)
+		for _, a := range results[c] {
+			if a.err != nil {
+				if !fired(w) {
+					return Viol(prop, "add-failed", "Add", "", "an append failed although no store call failed: %v", a.err)
+				}
+				w.Probe("add-failed-under-store-error")
+				continue
+			}
+			all = append(all, a)
+		}
+	}
+	w.Faults = nil
+	if c19Faulty && fired(w) {
+		w.Probe("nontrivial")
 	}
 	w.Note("%d appenders, %d appends", nClients, len(all))
 	seen := map[string]*walAdd{}
